@@ -288,6 +288,12 @@ def run_case(ctx, case):
         for i, nm in enumerate(names):
             groups.setdefault(nm, []).append(i)
         probe = list(groups)[:12] + ['.absent-name', '']
+        # names that no section bears although their bytes occur in the name table: tails, heads and extensions of real names
+        for nm in list(groups)[:6]:
+            for q in (nm[1:], nm[2:], nm[:-1], nm + 'x', nm + '\0'[:0] + '.'):
+                if q and q not in groups and q not in probe:
+                    probe.append(q)
+                    ctx.count('lookup.absent-but-substring-of-a-real-name')
         for nm in probe:
             present = nm in groups
             ok, idx = guard('get_section_index', lambda: ef.get_section_index(nm), allow_elferror=not (valid and all_ok))
